@@ -58,8 +58,10 @@ type Proxy struct {
 type pconn struct {
 	p          *Proxy
 	idx        int
+	wmu        sync.Mutex // serialises writes towards the server (pump + injected frames)
 	cli, srv   net.Conn
 	blackholed int32
+	stalled    int32 // the proxy stops reading in both directions: TCP back-pressure builds up at the senders
 	dead       int32
 	frames     map[string]int
 }
@@ -218,6 +220,9 @@ func (pc *pconn) kill(kind string) {
 	case "blackhole":
 		atomic.StoreInt32(&pc.blackholed, 1)
 		return
+	case "stall":
+		atomic.StoreInt32(&pc.stalled, 1)
+		return
 	case "rst":
 		if !atomic.CompareAndSwapInt32(&pc.dead, 0, 1) {
 			return
@@ -266,8 +271,25 @@ func (pc *pconn) write(dst net.Conn, b []byte) bool {
 	if len(b) == 0 {
 		return true
 	}
+	if dst == pc.srv {
+		pc.wmu.Lock()
+		defer pc.wmu.Unlock()
+	}
 	_, err := dst.Write(b)
 	return err == nil
+}
+
+// InjectEmptyFrame writes an empty (masked) text frame towards the server on every live connection, as a
+// peer other than the library's own client might.
+func (p *Proxy) InjectEmptyFrame() {
+	p.mu.Lock()
+	cs := append([]*pconn{}, p.conns...)
+	p.mu.Unlock()
+	for _, pc := range cs {
+		if atomic.LoadInt32(&pc.dead) == 0 {
+			pc.write(pc.srv, []byte{0x81, 0x80, 1, 2, 3, 4})
+		}
+	}
 }
 
 func (pc *pconn) violation(format string, a ...interface{}) {
@@ -319,6 +341,9 @@ func (pc *pconn) pump(dir string, src, dst net.Conn) {
 	msgOp := 0
 	msgFrames := 0
 	for {
+		for atomic.LoadInt32(&pc.stalled) == 1 && atomic.LoadInt32(&pc.dead) == 0 {
+			time.Sleep(time.Millisecond)
+		}
 		var h [14]byte
 		if _, err := io.ReadFull(br, h[:2]); err != nil {
 			return
